@@ -95,6 +95,12 @@ class Inventory:
     def __init__(self, facts, cg):
         self.facts = facts
         self.cg = cg
+        import absint as _ai
+        _ai.CONST_FIELDS.clear()
+        for k, c in (facts.consts or {}).items():
+            v = c.get("value") if isinstance(c, dict) else None
+            if isinstance(v, dict) and isinstance(v.get("fields"), dict):
+                _ai.CONST_FIELDS[_ai.norm_const_path(k)] = v["fields"]
         self.summaries = {}
         self.preconds = {}      # fn -> [(goal lin over callee arg symbols, origin site)]
         self.analyses = {}
@@ -648,7 +654,33 @@ class Inventory:
             o = s.via
             return "precond:%s<-%s(%s)" % (_short(s.detail), (o.desc or o.detail) if isinstance(o, Site) else o, ops)
         d = s.detail if s.kind in ("assert", "ubcheck") else "%s:%s" % (s.kind, _short(s.detail))
-        return "%s(%s)" % (d, ops)
+        return self._name_captures(s.fn, "%s(%s)" % (d, ops))
+
+    def _name_captures(self, fn, text):
+        """inside a closure, `arg1<{closure}>.N` is its N-th captured place: name it after the expression the
+        enclosing function captured (`upvar<&self.pc_locs>`), so that rows can speak about the same objects"""
+        if "::{closure#" not in fn or "arg1<{closure}>." not in text:
+            return text
+        ups = self._upvars(fn)
+        if not ups:
+            return text
+        return re.sub(r"arg1<\{closure\}>\.(\d+)", lambda m: ("upvar<%s>" % ups[int(m.group(1))]) if int(m.group(1)) < len(ups) else m.group(0), text)
+
+    def _upvars(self, fn):
+        cache = self.__dict__.setdefault("_upvar_cache", {})
+        if fn in cache:
+            return cache[fn]
+        out = None
+        parent = fn.rsplit("::{closure#", 1)[0]
+        pf = self.facts.fns.get(parent)
+        if pf and pf.get("thir"):
+            from facts import walk
+            for n in walk(pf["thir"]["body"]):
+                if n.get("k") == "closure" and n.get("path") == fn:
+                    out = [_render_thir(u) for u in n.get("upvars") or []]
+                    break
+        cache[fn] = out
+        return out
 
     def prov(self, an, o, depth):
         if "const" in o:
@@ -719,6 +751,26 @@ class Inventory:
                 return "indirect-call<%s>" % _short_ty(ty)
             return "%s(%s)" % (_short(nm), ",".join(self.prov(an, a, depth + 1) for a in t["args"]))
         return "tmp<%s>" % _short_ty(ty)
+
+
+def _render_thir(n):
+    from facts import strip
+    n = strip(n)
+    k = n.get("k")
+    if k in ("var", "upvar"):
+        return n.get("name") or "?"
+    if k == "field":
+        b = strip(n["e"])
+        if b.get("k") == "deref":
+            b = strip(b["e"])           # auto-deref of `self`
+        return "%s.%s" % (_render_thir(b), n.get("name"))
+    if k == "deref":
+        return "*%s" % _render_thir(n["e"])
+    if k == "ref":
+        return "&%s" % _render_thir(n["e"])
+    if k == "index":
+        return "%s[..]" % _render_thir(n.get("l") or n.get("e") or {})
+    return "?"
 
 
 def switch_context(body, bi):
